@@ -162,6 +162,7 @@ type Query struct {
 	Ms     int64
 	Output string
 	SMT    string
+	LiteSMT string
 }
 
 type Obligation struct {
@@ -196,6 +197,8 @@ type Ex struct {
 	Notes        map[string]bool          // assumptions used (unmodelled externs, trusted contracts)
 	Props        map[string]bool          // properties whose clauses are to be checked (nil = all)
 	Safety       bool                     // generate no-panic obligations
+	returns int
+	Lite    bool // BuildSMT: path facts and theory facts only (no axioms / unfoldings): a cheap first attempt
 	FrameChk     bool                     // generate store/frame obligations (C18)
 	isoDone      map[*ssa.BasicBlock]bool // isolated loops whose body has been verified
 	OnlyKinds    map[string]bool          // when set: only obligations of these kinds are generated, the others assumed
@@ -934,6 +937,36 @@ func (ex *Ex) ptrTerm(fr *Frame, st *State, l *Loc) *T {
 	}
 	if l.Global != nil && len(l.Path) == 0 {
 		return App("addr$"+mangle(l.Global.String()), SRef)
+	}
+	// the address of a field of external struct type (bytes.Buffer, strings.Builder, ...) inside a
+	// heap object: an opaque reference determined by the object and the field. Module code never
+	// dereferences such pointers itself (the types are only used through their methods, which
+	// are modelled on the location directly); whatever an external callee does through it is
+	// not tracked (T7).
+	if l.Ref == nil && l.Cell != 0 && len(l.Path) == 1 && !l.Path[0].IsIndex && !l.Path[0].IsSliceElem {
+		// field of a local struct: the local escapes to the heap first
+		if stt, ok := l.Pointee.Underlying().(*types.Struct); ok && l.Path[0].Field < stt.NumFields() {
+			if n, ok := types.Unalias(stt.Field(l.Path[0].Field).Type()).(*types.Named); ok && n.Obj().Pkg() != nil && !ex.W.InModule(n.Obj().Pkg()) {
+				r := ex.materialize(fr, st, l.Cell)
+				nl := *l
+				nl.Cell = 0
+				nl.Ref = r
+				return ex.ptrTerm(fr, st, &nl)
+			}
+		}
+	}
+	if l.Ref != nil && len(l.Path) == 1 && !l.Path[0].IsIndex && !l.Path[0].IsSliceElem {
+		if stt, ok := l.Pointee.Underlying().(*types.Struct); ok && l.Path[0].Field < stt.NumFields() {
+			ft := stt.Field(l.Path[0].Field).Type()
+			if n, ok := types.Unalias(ft).(*types.Named); ok && n.Obj().Pkg() != nil && !ex.W.InModule(n.Obj().Pkg()) {
+				if _, isStruct := n.Underlying().(*types.Struct); isStruct {
+					ex.note("interior pointer to a field of external struct type " + n.String() + " handed out as an opaque reference (T7)")
+					r := App("fieldref$"+mangle(ex.W.fieldHeapKey(l.Pointee, stt, l.Path[0].Field)), SRef, l.Ref)
+					st.Assume(Not(Eq(r, NilRef)))
+					return r
+				}
+			}
+		}
 	}
 	// interior pointers are not modelled as first-class refs
 	unsupp("interior pointer escapes in %s", fr.Name)
